@@ -111,7 +111,7 @@ def tmr_inst(name, P, K, isr, ops=None, tmax=7, weight=1, cap_quick=300):
         defs['OPSEQ'] = '{' + ','.join(str(o) for o in ops) + '}'
     return Inst(name, 'tmr_bmc.c', defs, unwind=max({0: 0, 1: 26, 2: 12, 3: 12}[isr], K + 2, tmax + 3, 10),
                 unwindset=dict({'COTmrDelete': b, 'COTmrProcess': b if isr < 2 else b + 1, 'COTmrInsert': b, 'COTmrRemove': b + 1, 'COTmrReset': P + 1,
-                                'check_pools': P + 2, 'CoVerifTmrPool': P + 1}, **({'check_due': max(P + 2, K + 1)} if isr == 0 else {})),
+                                'check_pools': P + 2, 'check_events': P + 2, 'CoVerifTmrPool': P + 1}, **({'check_due': max(P + 2, K + 1)} if isr == 0 else {})),
                 types=[], fp_override={'COTmrProcess.function_pointer_call.1': ['cb']}, weight=weight, objbits=9,
                 cap_quick=cap_quick, solver=[],      # MiniSat (cbmc default) is 2-4x faster than CaDiCaL on this family, and decides instances CaDiCaL does not finish (measured)
                 harness_only=['P', 'K', 'ISR', 'TMAX', 'OPSEQ', 'NPRE', 'ONESHOT'], family='tmr_bmc',
@@ -143,6 +143,10 @@ def c07(tier):
             if P > 2 and sum(1 for o in ops if o == 0) < P:
                 continue
             out.append(tmr_inst('tmr_bmc_p%d_%s' % (P, ''.join('CDTP'[o] for o in ops)), P, K, 0, ops, weight=1))
+    # a new action due on exactly the tick of an event that is not the head
+    out.append(tmr_inst('tmr_bmc_p3_CCCTT_t2', 3, 5, 0, (0, 0, 0, 2, 2), tmax=2, weight=8, cap_quick=700))
+    for ops in (((0, 0, 0, 0), (0, 0, 0, 2, 0)) if tier == 'quick' else ((0, 0, 0, 0), (0, 0, 0, 2, 0), (0, 0, 0, 0, 1))):
+        out.append(tmr_inst('tmr_bmc_p4_%s' % ''.join('CDTP'[o] for o in ops), 4, len(ops), 0, ops, tmax=7, weight=8, cap_quick=700))
     # deferred processing: three events fall due one after the other before a single process call
     for ops in (((0, 0, 0, 2, 2, 2, 3),) if tier == 'quick' else ((0, 0, 0, 2, 2, 2, 3), (0, 0, 0, 2, 2, 2, 3, 3), (0, 0, 2, 0, 2, 2, 3), (0, 0, 0, 2, 2, 2, 1))):
         out.append(tmr_inst('tmr_bmc_p3_%s' % ''.join('CDTP'[o] for o in ops), 3, len(ops), 0, ops, tmax=3, weight=8, cap_quick=700))
@@ -162,8 +166,8 @@ def c08(tier):
     else:
         cfg = [(1, 2, 5, 7), (1, 3, 4, 7), (2, 1, 4, 2), (2, 2, 3, 2)]
     # preemption inside process with TWO events (one elapsed, one falling due inside the process call)
-    for ops in (((0, 0, 2, 3),) if tier == 'quick' else ((0, 0, 2, 3), (0, 0, 3), (0, 0, 2, 3, 3), (0, 0, 2, 3, 1), (0, 2, 0, 3), (0, 0, 2, 2, 3))):
-        out.append(tmr_inst('tmr_isr3_p2_%s' % ''.join('CDTP'[o] for o in ops), 2, len(ops), 3, ops, tmax=2, weight=5))
+    for ops in (((0, 0, 2, 3), (0, 0, 2, 2, 3)) if tier == 'quick' else ((0, 0, 2, 3), (0, 0, 3), (0, 0, 2, 3, 3), (0, 0, 2, 3, 1), (0, 2, 0, 3), (0, 0, 2, 2, 3))):
+        out.append(tmr_inst('tmr_isr3_p2_%s' % ''.join('CDTP'[o] for o in ops), 2, len(ops), 3, ops, tmax=2, weight=9, cap_quick=700))
     for ops in (((0, 0, 1), (0, 0, 1, 3), (0, 0, 0, 3)) if tier == 'quick' else ((0, 0, 1), (0, 0, 1, 3), (0, 0, 0, 3), (0, 0, 1, 1), (0, 0, 0, 1))):
         out.append(tmr_inst('tmr_isr1_p3_%s' % ''.join('CDTP'[o] for o in ops), 3, len(ops), 1, ops, tmax=3, weight=6))
     for isr, P, K, tmax in cfg:
@@ -265,8 +269,8 @@ def seg_step_insts(tier, dirn):
 
 def c02(tier):
     out = []
-    for t in (0, 1, 2, 3):
-        out.append(sdo_xfer_inst(0, t, 2))
+    for t in (0, 1, 2, 3, 4):
+        out.append(sdo_xfer_inst(0, t, 2))     # 4: 2112h, 16 bit direct storage, node-id relative
     maxseg = 3 if tier == 'quick' else 5
     dom = 7 * maxseg
     sizes = [(0, f) for f in (1, 2, 3, 4)] + [(1, 5), (1, 6), (1, 7)] + [(ns, f) for ns in range(2, maxseg + 1) for f in range(1, 8)]
@@ -282,6 +286,10 @@ def c02(tier):
                 out.append(sdo_xfer_inst(3, 6, N, dom=dom, nseg=ns, lose=lose, fill=f))
     out += sdo_two_servers(tier)
     out += seg_step_insts(tier, 1)
+    # a download that follows an aborted / reset block transfer on the same server
+    for pre in (3, 4, 5, 8):
+        out.append(sdo_xfer_inst(3, 6, 2, pre=pre, dom=14, nseg=2, fill=3))
+        out.append(sdo_xfer_inst(1, 6, 2, pre=pre, dom=14, nseg=2, fill=3))
     return out
 
 
@@ -375,6 +383,12 @@ def c04(tier):
     defs.update({'CO_VERIF_SDO_BUF_SEG': 2})
     out.append(Inst('sdo_lookup', 'sdo_lookup.c', defs, unwind=90, unwindset=node_unwind(2), objbits=10, weight=20,
                     bounds='template dictionary (%s entries), multiplexer 24-bit symbolic, R/W flag bits of every application entry symbolic, request direction symbolic, idle server state arbitrary' % 'about 40'))
+    for sq in ('0', '1', '10', '01'):
+        d3 = dict(NODE_DEFS)
+        d3.update({'CO_VERIF_SDO_BUF_SEG': 2, 'CO_SSDO_N': 2, 'SRVSEQ': '"%s"' % sq})
+        out.append(Inst('sdo_uabort_%s' % sq, 'sdo_uabort.c', d3, unwind=24, unwindset=node_unwind(2), objbits=10, harness_only=['SRVSEQ'], family='sdo_uabort',
+                        extra_types={'UTypeA': ['USize', None, 'URead', 'UWriteA', None], 'UTypeR': ['USize', None, 'URead', 'UWriteR', None]},
+                        bounds='two SDO servers, requests to servers %s: application type supplying a symbolic abort code, then refusals with standard codes' % sq))
     defs2 = dict(defs)
     defs2.update({'CO_SSDO_N': 2})
     out.append(Inst('sdo_lookup_2srv', 'sdo_lookup.c', defs2, unwind=90, unwindset=node_unwind(2), objbits=10, weight=20,
@@ -561,6 +575,7 @@ def c10(tier):
     # long periods at high timer frequencies (period checked in the timer lists), heartbeat chained behind another action of the same tick
     for fq, vs in ((1000000, (70, 66, 1)), (1000000, (65, 6554, 20000)), (10000, (6553, 6554, 60000)), (100000, (700, 1, 655))):
         out.append(hbp_inst('WAW', 2, vals=vs, freq=fq))
+    out.append(hbp_inst('INGCWTTTTTT', 2, vals=(1, 0, 0, 3, 3, 0, 0, 0, 0, 0, 0)))   # new heartbeat due on the tick of a pending timer that is not the head
     out.append(hbp_inst('CWWTTTT', 2, vals=(2, 2, 2, 0, 0, 0, 0)))
     out.append(hbp_inst('CWWTTTT', 2, vals=(3, 3, 3, 0, 0, 0, 0)))
     out.append(hbp_inst('CWTWTTT', 2, vals=(3, 3, 0, 2, 0, 0, 0)))
@@ -687,7 +702,7 @@ def c14(tier):
            tpdo_inst('aw_ab', 'NVMUGo', 0, 0, 254, map2=(link(0x2105, 0, 32), link(0x2103, 0, 8), link(0x2101, 0, 16))),
            tpdo_inst('aw_ab', 'NVMUOo', 0, 0, 254, vals=(2, 3, 2, 3, 2, 3, 2, 3, 2, 3, 2, 3)),
            tpdo_inst('aw_ab', 'NPVKUNYYG', 0, 0, 2, type2=255), tpdo_inst('aw_ab', 'NPVKUNYYY', 0, 0, 255, type2=1), tpdo_inst('aw_ab', 'NVKUYYYY', 0, 0, 2, type2=255),
-           rpdo_inst('b_d16_w'), rpdo_inst('b_l3_w', t0=1, seq='RS')]
+           rpdo_inst('b_d16_w'), rpdo_inst('b_l3_w', t0=1, seq='RS'), rpdo_inst('w_b', t0=240, seq='RS'), rpdo_inst('w_b', t0=240, seq='RLS'), rpdo_inst('w_b', t0=239, seq='RS')]
     uw = node_unwind(2)
     uw.update(lss_unwind())
     uw.update({'COSyncInit': 4, 'COSyncHandler': 4, 'COSyncUpdate': 4, 'COSyncRx': 9, 'CORPdoCheck': 4, 'CORPdoReset': 10, 'CORPdoWrite': 10, 'CORPdoGetMap': 10,
@@ -758,7 +773,7 @@ def tpdo_inst(mapname, seq, inh, evt, ttype, vals=(1, 1, 1, 1, 1, 1, 1, 1, 1), t
 
 def tpdo_nmt_insts():
     # NMT commands that do not change the mode must not disturb PDO communication (also part of C09)
-    return [tpdo_inst('aw_ab', 'NYNY', 0, 0, 2), tpdo_inst('aw_ab', 'NYNYNY', 0, 0, 3), tpdo_inst('aw_ab', 'NGGNTT', 20, 0, 254),
+    return [tpdo_inst('aw_ab', 'NGGSTT', 20, 0, 254), tpdo_inst('aw_ab', 'NGGPTT', 20, 0, 254), tpdo_inst('aw_ab', 'NGGPTNT', 20, 0, 254), tpdo_inst('aw_ab', 'NYNY', 0, 0, 2), tpdo_inst('aw_ab', 'NYNYNY', 0, 0, 3), tpdo_inst('aw_ab', 'NGGNTT', 20, 0, 254),
             tpdo_inst('aw_ab', 'NTNTT', 0, 2, 254), tpdo_inst('aw_ab', 'NGNGTT', 20, 0, 254)]
 
 
@@ -792,6 +807,8 @@ def c12(tier):
                                  ('NGVKUYYY', 0, 0, 255, 1), ('NYVKUYYY', 0, 0, 2, 3), ('NVKUTTG', 0, 2, 1, 254)):
         out.append(tpdo_inst('aw_ab', sq, inh, evt, tt, type2=t2))
     out += tpdo_nmt_insts()
+    for sq in ('NQ', 'NH', 'NHQ', 'NOH'):
+        out.append(tpdo_inst('al_aw_ab_b', sq, 0, 0, 254))
     out.append(tpdo_inst('aw_ab', 'NPVKUNYYG', 0, 0, 2, type2=255))
     out.append(tpdo_inst('aw_ab', 'NPVKUNYYY', 0, 0, 255, type2=1))
     for sq in ('NVMUG', 'NGVMUGO', 'VMUNG'):
@@ -823,7 +840,7 @@ def c17(tier):
     cfgs = []
     for G, types in ((2, (1, 2, 1)), (3, (1, 2, 1)), (3, (2, 1, 2)), (1, (1, 1, 1))):
         for sub in range(1, G + 1):
-            for sq in ('asB', 'asaB', 'asaN', 'asaC', 'arB', 'asar', 'asasB'):
+            for sq in ('asB', 'asaB', 'asaN', 'asaC', 'arB', 'asar', 'asasB', 'auuB'):
                 cfgs.append((G, types, sub, sq))
     if tier == 'quick':
         cfgs = [c for c in cfgs if not (c[0] == 3 and c[1][0] == 2 and c[3] not in ('asaC', 'asaN'))]
@@ -850,7 +867,7 @@ def csdo_inst(kind, dirn=0, size=4, beh=0, j=0, follow=1, cbtmr=False, cbreq=Fal
         defs['CBTMR'] = None
     if cbreq:
         defs['CBREQ'] = None
-    behs = ['conforming', 'abort at step %d' % j, 'silent from step %d' % j, 'unknown command at step %d' % j, 'wrong toggle at step %d' % j, 'oversized / foreign answer', 'final segment claiming 7 bytes']
+    behs = ['conforming', 'abort at step %d' % j, 'silent from step %d' % j, 'unknown command at step %d' % j, 'wrong toggle at step %d' % j, 'oversized / foreign answer', 'final segment claiming 7 bytes', 'segments beyond the announced size, never a last one']
     if kind == 1:
         return Inst('csdo_step', 'csdo_e2e.c', defs, unwind=602, unwindset=uw, objbits=10, csdo_cbs=['cb'], harness_only=['KIND', 'DIRN', 'SIZE', 'BEH', 'J', 'FOLLOW'],
                     family='csdo_e2e', bounds='segmented download context with 32-bit symbolic Size (5..600) and Buf_Idx, one segment confirmation')
@@ -886,6 +903,7 @@ def c19(tier):
     # upload whose final segment claims more data than remains
     for sz in ((5, 8, 15) if tier == 'quick' else (5, 6, 8, 9, 13, 15, 16, 22)):
         out.append(csdo_inst(0, 0, sz, 6, 0))
+        out.append(csdo_inst(0, 0, sz, 7, 0))
     return out
 
 
@@ -921,6 +939,13 @@ def c20(tier):
     # stack timers in front of / behind an application timer with different times (the reset deletes a partly elapsed head timer)
     for h, vs in (('WCT', (2, 3, 0)), ('CWT', (3, 2, 0)), ('WCTT', (3, 2, 0, 0)), ('XCT', (2, 3, 0)), ('khCT', (3, 0, 2, 0)), ('NECT', (0, 2, 3, 0))):
         for p in ('TTTT', 'NGTT', 'uvTT'):
+            out.append(reset_inst(h, p, vals=vs + (2, 2, 2, 2)))
+    # pending (not stored) LSS configuration at the reset; tick interrupt served but not yet processed at the reset
+    for p in ('sTTT', 'lsTT'):
+        out.append(reset_inst('LJ', p))
+        out.append(reset_inst('LJ', p, rst=129))
+    for h, vs in (('XTt', (2, 0, 0)), ('Wt', (1, 0)), ('khTt', (2, 0, 0, 0)), ('XWTt', (2, 2, 0, 0))):
+        for p in ('TTTT', 'YTTT'):
             out.append(reset_inst(h, p, vals=vs + (2, 2, 2, 2)))
     # LSS activate-bit-timing pending (node waits in INIT, switch-delay timer running) when the application resets the node
     for p in ('TTTT', 'lcrT', 'TTTTT'):
@@ -999,7 +1024,7 @@ def c01(tier):
     sw += [i for i in c14(tier) if '_preop' in i.name]
     sw += [i for i in c11(tier) if '_write' in i.name or i.name.endswith('_hb')][:(24 if tier == 'quick' else 200)]
     sw += [i for i in c15(tier) if '_preop_' in i.name and '_h2_' in i.name]
-    sw += [i for i in c19(tier) if i.name == 'csdo_step' or '_b5_' in i.name or '_b3_' in i.name]
+    sw += [i for i in c19(tier) if i.name == 'csdo_step' or '_b5_' in i.name or '_b3_' in i.name or '_b7_' in i.name or '_b6_' in i.name]
     sw += [i for i in c16(tier) if i.name.startswith('sync_')]
     sw += [i for i in c08(tier) if '_isr1_' in i.name][:(12 if tier == 'quick' else 60)]
     # timer histories long enough for a corrupted list to be walked / a freed action to be called
